@@ -284,7 +284,7 @@ func instDesc(s InstSpec) string {
 var c13Fixtures = []string{"tiny", "flat24", "nest", "twin1", "twin2"}
 
 func genSchedCase(t *rapid.T, engine string) *SchedCase {
-	cfg := wlCfg{fixtures: fixturesFromEnv(c13Fixtures), maxRecs: 8, gen: vt.DefaultGen}
+	cfg := wlCfg{fixtures: fixturesFromEnv(c13Fixtures), maxRecs: 8, gen: vt.DefaultGen, noPatterns: true}
 	cfg.gen.MaxList = 3
 	c := &SchedCase{Engine: engine}
 	n := rapid.IntRange(2, 5).Draw(t, "instances")
@@ -375,7 +375,7 @@ func TestC13Race(t *testing.T) {
 		// a fixed pseudo-random but reproducible set of workloads, drawn through rapid's generators from a seed-determined example
 		var specs []InstSpec
 		for i := 0; i < 48; i++ {
-			cfg := wlCfg{fixtures: fixturesFromEnv(c13Fixtures), maxRecs: 20, gen: vt.DefaultGen}
+			cfg := wlCfg{fixtures: fixturesFromEnv(c13Fixtures), maxRecs: 20, gen: vt.DefaultGen, noPatterns: true}
 			w := rapid.Custom(func(t *rapid.T) *Workload { return genWorkload(t, cfg) }).Example(seed*7919 + r*131 + i)
 			specs = append(specs, InstSpec{W: w, Reader: i%3 == 2})
 		}
